@@ -4,13 +4,15 @@ from . import common as C
 from . import sem as S
 
 # property -> (families quick, families thorough)
+ALLF = ["F1", "F1b", "F2", "F3", "F4", "F5", "F6", "F7", "F8", "F9", "F10", "F13"]
 FAMILIES = {
-    "C01": (["F1", "F2", "F3", "F4", "F5", "F6", "F7", "F10"], ["F1", "F2", "F3", "F4", "F5", "F6", "F7", "F8", "F10"]),
-    "C02": (["F1", "F2", "F3", "F4"], ["F1", "F2", "F3", "F4", "F5", "F6", "F7", "F8", "F10"]),
-    "C03": (["F1", "F2", "F3", "F7"], ["F1", "F2", "F3", "F4", "F5", "F6", "F7", "F8", "F10"]),
-    "C04": (["F8", "F5", "F6"], ["F8", "F1", "F5", "F6", "F7"]),
-    "C09": (["F1", "F5", "F4"], ["F1", "F2", "F4", "F5", "F8"]),
-    "C13": (["F1", "F3", "F6", "F7"], ["F1", "F2", "F3", "F4", "F5", "F6", "F7", "F8"]),
+    "C01": (["F1", "F1b", "F2", "F3", "F4", "F5", "F6", "F7", "F9", "F10"], ALLF),
+    "C02": (["F1b", "F2", "F3", "F4", "F8", "F9"], ALLF),
+    "C03": (["F1", "F1b", "F2", "F3", "F7", "F8", "F9"], ALLF),
+    "C04": (["F8", "F5", "F6"], ["F8", "F1", "F1b", "F5", "F6", "F7", "F9"]),
+    "C09": (["F1", "F5", "F4"], ["F1", "F2", "F4", "F5", "F8", "F9"]),
+    "C13": (["F1", "F3", "F6", "F7", "F13"], ALLF),
+    "C16": (["F10", "F3", "F4"], ["F10", "F1", "F2", "F3", "F4", "F8"]),
 }
 
 
@@ -77,7 +79,7 @@ def sample_file(path, every, dst):
 
 
 def run_sem(prop, tier, v, families=None, opts=None, replay_cases=None, want=("sem",), trace_every=0, max_traces=3000,
-            vm_every=1):
+            vm_every=1, vm_env=None):
     """Run the pipeline; returns dict with results for the property-specific classifier.
     want: subset of {"sem", "vm", "trace", "cost"} - which TLC judges to run."""
     work = C.fresh_dir(os.path.join(C.OUT, "work", prop))
@@ -99,6 +101,8 @@ def run_sem(prop, tier, v, families=None, opts=None, replay_cases=None, want=("s
     if "vm" in want:
         ropts += ["--progs"]
         extra.append(("--vm-out", "vm"))
+    if "api" in want:
+        ropts += ["--api"]
     if "cost" in want or "trace" in want:
         ropts += ["--cost"]
     if "trace" in want:
@@ -130,6 +134,12 @@ def run_sem(prop, tier, v, families=None, opts=None, replay_cases=None, want=("s
         R["stats"] = [j for j in R["jlines"] if j["kind"] == "stat"]
         if len(R["stats"]) != nobs:
             raise C.ToolError("judge reported on %d of %d records" % (len(R["stats"]), nobs))
+    if "api" in want:
+        t0 = time.time()
+        results, njudged = judge_sharded("JudgeApi", "JudgeApi.cfg", obs, work, "api", parts=parts)
+        C.log("judge (accessors): %d records in %.1fs" % (njudged, time.time() - t0))
+        absorb(results)
+        R["api_matches"] = sum(j["matches"] for j in R["jlines"] if j["kind"] == "apistat")
     if "cost" in want:
         t0 = time.time()
         results, njudged = judge_sharded("JudgeCost", "JudgeCost.cfg", obs, work, "cost", parts=parts)
@@ -146,7 +156,7 @@ def run_sem(prop, tier, v, families=None, opts=None, replay_cases=None, want=("s
         if vm_every > 1 and replay_cases is None:
             vmf = paths["vm"] + ".sample"
             sample_file(paths["vm"], vm_every, vmf)
-        results, njudged = judge_sharded("JudgeVM", "JudgeVM.cfg", vmf, work, "vm", parts=parts)
+        results, njudged = judge_sharded("JudgeVM", "JudgeVM.cfg", vmf, work, "vm", parts=parts, env=vm_env)
         C.log("judge (machines on dumped bytecode): %d records in %.1fs" % (njudged, time.time() - t0))
         absorb(results)
         vs = [j for j in R["jlines"] if j["kind"] == "vmstat"]
@@ -217,6 +227,17 @@ def classify(prop, R, v, kinds_sem=(), pairs=(), use_bad=False, use_fails=None):
             what = "machines on the %s program of /%s/%s on %s: BacktrackVM %s, PikeVM %s, engine %s, invariants %s" % (
                 j["prog"], r.get("pats"), r.get("flags"), r["hays"][j["h"]], j["bt"], j["pv"], j["obs"], j["bad"])
             v.violation(what, {"pipeline": "sem", "case": S.small_case(r, j["h"]), "kind": "vm", "detail": j})
+        elif kd == "api":
+            r = rec(j["id"])
+            what = "accessors of match %s of /%s/%s on %s: wrong: %s (names %s; observed %s)" % (
+                j["match"], r.get("pats"), r.get("flags"), r["hays"][j["h"]], j["wrong"], j["names"],
+                json.dumps({k: j["api"][k] for k in ("group", "groups", "named", "named_groups")}))
+            v.violation(what, {"pipeline": "sem", "case": S.small_case(r, j["h"]), "kind": "api", "detail": j})
+        elif kd == "pred":
+            r = rec(j["id"])
+            what = "start predicate %s of the %s program of /%s/%s rejects byte offset %d of %s where an anchored attempt succeeds" % (
+                json.dumps(j["pred"]), j["prog"], r.get("pats"), r.get("flags"), j["at"], r["hays"][j["h"]])
+            v.violation(what, {"pipeline": "sem", "case": S.small_case(r, j["h"]), "kind": "pred", "detail": j})
         elif kd == "cost":
             r = rec(j["id"])
             what = "%s on /%s/%s on %s: steps %s depth %s exceed %d = K*%d+K0 (reference search cost %d)" % (
@@ -285,7 +306,7 @@ def classify(prop, R, v, kinds_sem=(), pairs=(), use_bad=False, use_fails=None):
 
 
 def coverage(R, samples, rule):
-    evals = sum(s["evals"] for s in R["stats"]) + R.get("cost_runs", 0) + R.get("vm_runs", 0) + R.get("traces_validated", 0)
+    evals = sum(s["evals"] for s in R["stats"]) + R.get("api_matches", 0) + R.get("cost_runs", 0) + R.get("vm_runs", 0) + R.get("traces_validated", 0)
     nontriv = sum(s["nontrivial"] for s in R["stats"])
     if not R["stats"]:
         nontriv = len([j for j in R["jlines"] if j["kind"] in ("coststat", "vmstat") and j.get("runs", 0) > 0])
